@@ -29,6 +29,20 @@ func TestC10_vector_views(t *testing.T) {
 		n := rapid.IntRange(1, 8).Draw(t, "n")
 		a := gen.DrawVec(t, "a", st, sparse, n, dm, false)
 		base := a.Build()
+		// the constant sparse vector type (read-only): ConstSlice words only
+		constBase := st.Name == "Float64" && sparse && rapid.IntRange(0, 2).Draw(t, "constant type") == 0
+		var cbase ConstVector
+		if constBase {
+			var idx []int
+			var vals []float64
+			for i, e := range a.Model() {
+				if v := e.GetFloat64(); v != 0 {
+					idx = append(idx, i)
+					vals = append(vals, v)
+				}
+			}
+			cbase = NewSparseConstFloat64Vector(idx, vals, n)
+		}
 		// a word of nested slices
 		depth := rapid.IntRange(0, 3).Draw(t, "depth")
 		var word []vstep
@@ -37,6 +51,9 @@ func TestC10_vector_views(t *testing.T) {
 			apis := []string{"Slice", "Slice", "ConstSlice"}
 			if st.IsReal() {
 				apis = append(apis, "MagicSlice")
+			}
+			if constBase {
+				apis = []string{"ConstSlice"}
 			}
 			i := rapid.IntRange(0, length).Draw(t, "i")
 			j := rapid.IntRange(i, length).Draw(t, "j")
@@ -51,7 +68,10 @@ func TestC10_vector_views(t *testing.T) {
 			off, length = off+i, j-i
 		}
 		// (whether AsMatrix shares storage is not specified: dense vectors do, sparse vectors copy; only its reads are asserted)
-		op := rapid.SampledFrom([]string{"read", "read", "write", "AsMatrix read", "out of range"}).Draw(t, "op")
+		op := rapid.SampledFrom([]string{"read", "read", "write", "move", "AsMatrix read", "out of range"}).Draw(t, "op")
+		if constBase {
+			op = "read"
+		}
 		c := obs.Begin("vector_views", "%s word=%v %s", a, word, op)
 		c.Classf("elem=%s", st)
 		c.Classf("storage=%s", map[bool]string{true: "sparse", false: "dense"}[sparse])
@@ -59,6 +79,10 @@ func TestC10_vector_views(t *testing.T) {
 		c.Classf("op=%s", op)
 		c.NT(depth >= 1 && length < n)
 		var view ConstVector = base
+		if constBase {
+			view = cbase
+			c.Class("storage=sparse constant type")
+		}
 		writable := true
 		p := call(func() {
 			for _, s := range word {
@@ -95,8 +119,24 @@ func TestC10_vector_views(t *testing.T) {
 				t.Fatalf("%s: %s", c.Desc(), bad)
 			}
 			for k := 0; k < length; k++ {
+				if constBase {
+					if g.E[k].Val != am.E[off+k].Val {
+						t.Fatalf("%s: view element %d is %v, base element %d is %v", c.Desc(), k, g.E[k].Val, off+k, am.E[off+k].Val)
+					}
+					continue
+				}
 				if d := g.E[k].Diff(am.E[off+k], 0, false); d != "" {
 					t.Fatalf("%s: view element %d should be base element %d: %s", c.Desc(), k, off+k, d)
+				}
+			}
+			// the iterator visits positions of the view, with the values found there
+			for it := view.ConstIterator(); it.Ok(); it.Next() {
+				k := it.Index()
+				if k < 0 || k >= length {
+					t.Fatalf("%s: the iterator of the view reports index %d, the view has dimension %d", c.Desc(), k, length)
+				}
+				if v := it.GetConst().GetFloat64(); v != am.E[off+k].Val {
+					t.Fatalf("%s: the iterator reports %v at index %d, base element %d is %v", c.Desc(), v, k, off+k, am.E[off+k].Val)
 				}
 			}
 		case "out of range":
@@ -143,6 +183,49 @@ func TestC10_vector_views(t *testing.T) {
 				}
 				if d := after.E[q].Diff(want, 0, false); d != "" {
 					t.Fatalf("%s: base element %d changed although the write went to view element %d (base %d): %s", c.Desc(), q, k, off+k, d)
+				}
+			}
+		case "move":
+			// a reference view: exchanging or reversing its elements rearranges the parent
+			w, ok := view.(Vector)
+			if !ok || length < 2 {
+				c.Class("not writable or too short (not asserted)")
+				c.End()
+				return
+			}
+			how := rapid.SampledFrom([]string{"Swap", "ReverseOrder"}).Draw(t, "how")
+			c.Classf("move=%s", how)
+			want := make([]model.SState, n)
+			copy(want, am.E)
+			var p string
+			if how == "Swap" {
+				k1 := rapid.IntRange(0, length-1).Draw(t, "k1")
+				k2 := rapid.IntRange(0, length-1).Draw(t, "k2")
+				want[off+k1], want[off+k2] = want[off+k2], want[off+k1]
+				p = call(func() { w.Swap(k1, k2) })
+			} else {
+				for k := 0; k < length; k++ {
+					want[off+k] = am.E[off+length-1-k]
+				}
+				p = call(func() { w.ReverseOrder() })
+			}
+			if p != "" {
+				t.Fatalf("%s: %s on the view panicked: %s", c.Desc(), how, p)
+			}
+			after, _ := model.ObsVector(base)
+			vw, _ := model.ObsVector(w)
+			for k := 0; k < length; k++ {
+				if d := vw.E[k].Diff(want[off+k], 0, false); d != "" {
+					t.Fatalf("%s: after %s the view element %d is wrong: %s", c.Desc(), how, k, d)
+				}
+			}
+			for q := 0; q < n; q++ {
+				if d := after.E[q].Diff(want[q], 0, false); d != "" {
+					if sparse && depth >= 1 && c.Known("C10/sparse-vector-slice-does-not-write-absent-entries-through") {
+						c.End()
+						return
+					}
+					t.Fatalf("%s: after %s on the view the parent element %d is wrong (the view is a reference view): %s", c.Desc(), how, q, d)
 				}
 			}
 		case "AsMatrix read", "AsMatrix write":
